@@ -183,7 +183,7 @@ class C02(core.Check):
     def _rich_tokens(self, rng, n):
         names = ['div', 'span', 'p', 'b', 'ul', 'li', 'a', 'DIV', 'Span', 'section', 'br', 'img', 'hr', 'input', 'BR']
         anames = ['id', 'class', 'style', 'title', 'data-x', 'checked', 'ID', 'Title', '1x', 'a.b', 'x_y', 'href']
-        avals = ['v', '', 'a b', 'x  y ', 'color: red', 'color:red;float:left', 'two words', 'q"q', "it's", 'é', '<b>', '7']
+        avals = ['v', '', 'a b', 'x  y ', 'color: red', 'color:red;float:left', 'two words', 'q"q', "it's", 'é', '<b>', '7', 'x\r\ny']
         toks = []
         open_names = []
         for _ in range(n):
@@ -196,7 +196,7 @@ class C02(core.Check):
                     v = rng.choice(avals + [None, None])
                     q = rng.choice(['"', '"', "'", ''])
                     if v is not None:
-                        if q == '' and (v == '' or any(c in v for c in ' "\'<>=`')):
+                        if q == '' and (v == '' or any(c in v for c in ' "\'<>=`\r\n\t')):
                             q = '"'
                         if q == '"' and '"' in v:
                             q = "'"
@@ -218,7 +218,7 @@ class C02(core.Check):
                 else:
                     toks.append(['E', rng.choice(['div', 'p', 'zz', 'br'])])
             elif r < 0.85:
-                toks.append(['T', rng.choice(['x', 'yy', ' ', '\n', ' a b ', 'é', 'text > more', 'a = b', 'x\ty'])])
+                toks.append(['T', rng.choice(['x', 'yy', ' ', '\n', ' a b ', 'é', 'text > more', 'a = b', 'x\ty', 'line1\r\nline2', 'a\rb'])])
             elif r < 0.93:
                 toks.append(['R', rng.choice(['&amp;', '&lt;', '&nbsp;', '&#65;', '&#x41;'])])
             else:
@@ -265,7 +265,7 @@ class C02(core.Check):
             for _ in range(rng.randint(2, 3)):
                 docs.append(dict(toks=self._rich_tokens(rng, rng.randint(1, 12)), doctype=rng.choice(doctypes)))
             cases.append(dict(cls=rng.choice(['plain', 'indexed', 'validating']) if rng.random() < 0.9 else 'plain', docs=docs))
-        nentry = 25 if self.tier == 'quick' else 300
+        nentry = 40 if self.tier == 'quick' else 300
         for _ in range(nentry):
             cases.append(dict(cls='plain', entry=True, docs=[dict(toks=self._rich_tokens(rng, rng.randint(1, 15)), doctype=rng.choice(doctypes))]))
         self.stats.update(small_alphabet_sequences=n_ex, random_sequences=nrand, histories=nhist, entry_point_cases=nentry)
